@@ -110,6 +110,11 @@ func TestC16(t *testing.T) {
 			if !sameOpts {
 				o = genOptions(t, rec)
 			}
+			if rapid.IntRange(0, 5).Draw(t, "customlimit") == 0 {
+				// arbitrary options: a dictionary limit that is not one of the
+				// With*LimitDictIndex capacities, set through a custom Option
+				o.Dict = "custom:" + rapid.SampledFrom([]string{"300", "1000", "10", "70000", "1", "255", "256"}).Draw(t, "customn")
+			}
 			c, _ := genOptionHistory(t, historyPlan{MinBatches: 1, MaxBatches: 5, Interleave: true, Knobs: gen.InDomain()})
 			c.Options = o
 			g.Streams = append(g.Streams, *c)
